@@ -45,12 +45,15 @@ def _run(args, timeout=600):
 
 def search(pid, failure, seed):
     """Find a concrete input violating the contract of failure['fn'] on the real code."""
-    if failure.get('cex') and failure.get('region') == 'kani':
-        r = _run(['search', failure['fn'], str(seed)])
-        if not r.get('found'):
-            r = dict(r)
-            r['kani_counterexample'] = failure['cex']
-        return r
+    if failure.get('region') == 'kani':
+        if failure.get('cex'):
+            # Kani's counterexample is a concrete valuation of the harness's kani::any() inputs,
+            # found on the real crate (scratch copy of /repo's working tree)
+            return {'found': True, 'engine': 'Kani concrete playback (CBMC counterexample over the real crate)',
+                    'input': {'kani_any_values_in_order': failure.get('cex_vals'), 'playback_test': failure['cex']},
+                    'expected': failure.get('clause'), 'observed': failure.get('msg'),
+                    'how': 'cargo kani --concrete-playback=print --harness ' + failure['fn']}
+        return {'found': False, 'how': 'Kani reported the failed check without a concrete counterexample'}
     return _run(['search', failure['fn'].split('::')[-1], str(seed)])
 
 
